@@ -5,6 +5,7 @@ go 1.23.0
 require (
 	github.com/fxamacker/cbor/v2 v2.7.0
 	go.flow.arcalot.io/pluginsdk v0.0.0
+	gopkg.in/yaml.v3 v3.0.1
 )
 
 require (
